@@ -4,6 +4,14 @@ import Frp.Props.C13
   Driver engine "group" (C13): replays the harness trace (harness/eng_group.go) on the small-step
   model `Frp.Group` with the switch `Group.current`, and evaluates the C13 predicates on the
   implementation's own results.
+
+  Inside `sched` joins AND leaves are scheduled in sections (ops hold / unhold / leaveA / leaveW next to
+  lookup / enter).  The engine keeps what the code's lock discipline (`C13.code_join_one_section`,
+  `code_leave_one_section`: facts regenerated from the source) implies: a leave started while a join is parked
+  waits for the controller lock (`lq`); a leave whose group lock the harness holds keeps the controller lock
+  and everybody behind it waits; whatever can move after `enter` / `unhold` does, in arrival order (`drain`).
+  An asynchronous leave is run as its two labels `leaveEdit`, `leaveDel`.  `wedged` (an op that can never
+  finish) is, like `crash`, a failure of the property.
 -/
 namespace Frp
 namespace Engines
@@ -24,6 +32,13 @@ structure GroupState where
   manual : List Str := []                      -- held members: joined, accept loop not started (harness `manual`)
   dials : List (Nat × Nat × Nat) := []         -- kept user connections still waiting: (dial id, model conn, gid)
   ids : List Nat := []                         -- dial ids used
+  ports : List (Str × Nat) := []               -- tcp: member ↦ real port of its last accepted join (token `@m`)
+  -- joins and leaves as separately scheduled steps (ops hold / unhold / leaveA / leaveW inside `sched`)
+  hold : Option Nat := none                    -- the harness holds the group lock of this object
+  lq : List (Str × Str) := []                  -- leaves started and not finished, in arrival order: they wait for
+                                               -- the controller lock, or hold it and wait for the held group lock
+  jwait : Option (Str × Str) := none           -- a gated join that has not reached its lookup yet (m, g)
+  athreads : List Str := []                    -- asynchronous leaves whose end has not been collected (leaveW)
 
 def kindOf : String → Option Kind
   | "tcp" => some .tcp | "http" => some .http | "mux" => some .mux | _ => none
@@ -75,15 +90,22 @@ def implReported (impl : String) : Nat :=
 
 def busyName (st : GroupState) (m g : Str) : Bool :=
   st.joined.any (fun x => x.1 == m && !(st.s.kind == .http && x.2 == g)) ||
-    st.s.pend.any (·.1 == m) || st.s.pend.any (·.2.1 == g)
+    st.s.pend.any (·.1 == m) || st.s.pend.any (·.2.1 == g) ||
+    (match st.jwait with | some (m', g') => m' == m || g' == g | none => false)
 
 /-- the enter half of a join + bookkeeping; returns (state, model result, prop) -/
 def doEnter (fx : Fix) (st : GroupState) (m g : Str) (a : JoinArgs) (impl : String) (pre : St) :
     GroupState × String × Option Bool :=
-  let prop := C13.joinHolds pre m g a.key a.p (implOk impl) (implTruthful impl) (implReported impl)
+  let prop0 := C13.joinHolds pre m g a.key a.p (implOk impl) (implTruthful impl) (implReported impl)
   match step fx st.s (.enter m a.key a.p (oracleOf impl a.grab)) with
-  | none => (st, "impossible", some prop)
+  | none => (st, "impossible", some prop0)
   | some (s', r) =>
+    -- "can be created again immediately": creation on an endpoint a dissolved group has held
+    let prop := prop0 && C13.recreateHolds pre g a.p (match r with | .ok _ => true | _ => false) (implOk impl)
+    let ports := match r with
+      | .ok rp => if st.s.kind == .tcp then (m, rp) :: st.ports.filter (fun x => !(x.1 == m)) else st.ports
+      | _ => st.ports
+    let st := { st with ports := ports }
     let joined := match r with
       | .ok _ => (m, g) :: st.joined.filter (fun x => !(x.1 == m))
       | _ => st.joined
@@ -214,11 +236,86 @@ def settle (fx : Fix) (st : GroupState) (suffix : String) : GroupState × String
       | _ => (st, parts, prop)) (st, [], none)
   (st', ",".intercalate parts.reverse, prop)
 
+/-- one leave as its two sections, run back to back (`C13.leaveL_eq_sections` / `leaveG_eq_sections`: the same
+    as the big-step label); returns the new model state and whether frps died -/
+def runLeave (fx : Fix) (s : St) (m g : Str) : St × Bool :=
+  let gid? := if s.kind = .http then s.table.lookup g else s.gidOf m
+  match gid? with
+  | none => (s, false)
+  | some gid =>
+    if (s.obj gid).members.contains m then
+      match step fx s (.leaveEdit m gid) with
+      | none => (s, false)
+      | some (s1, .crash) => (s1, true)
+      | some (s1, _) =>
+        if s1.pdel.any (·.1 == m) then
+          match step fx s1 (.leaveDel m) with
+          | some (s2, _) => (s2, false)
+          | none => (s1, false)
+        else (s1, false)
+    else
+      match step fx s (.leaveG m g) with
+      | some (s1, _) => (s1, false)
+      | none => (s, false)
+
+/-- the object whose group lock a leave of (m, g) needs -/
+def leaveObj (s : St) (m g : Str) : Option Nat := if s.kind = .http then s.table.lookup g else s.gidOf m
+
+/-- whatever can move after a lock was released does: the queued leaves in arrival order (the first one holds
+    the controller lock — it stops everything if the harness holds its group lock), then the waiting join's lookup
+    (which parks it at the gate, holding the controller lock) -/
+def drain (fx : Fix) : Nat → GroupState → GroupState
+  | 0, st => st
+  | fuel + 1, st =>
+    if st.s.lock.isSome then st else
+    match st.lq with
+    | (m, g) :: rest =>
+      if st.hold.isSome && leaveObj st.s m g == st.hold then st
+      else drain fx fuel { st with s := (runLeave fx st.s m g).1, lq := rest }
+    | [] =>
+      match st.jwait with
+      | none => st
+      | some (m, g) =>
+        match step fx st.s (.lookup m g) with
+        | some (s1, _) => { st with s := s1, jwait := none }
+        | none => st
+
+def parseNats (t : String) : List Nat := (t.splitOn ",").filterMap (·.toNat?)
+
+def parseRoutes (t : String) : List EpKey :=
+  (t.splitOn ",").filterMap (fun r => match r.splitOn "/" with
+    | [d, l, u] => do let d ← unhx d; let l ← unhx l; let u ← unhx u; pure (EpKey.route d l u)
+    | _ => none)
+
+/-- the property on a dump of the real port manager / router: nothing is held that no populated group (and no
+    outsider) holds -/
+def viewProp (s : St) (impl : String) : Option Bool :=
+  let body := (impl.splitOn " open=").headD ""
+  match s.kind with
+  | .tcp => if body.startsWith "used=" then some (C13.usedHolds s (parseNats (body.drop 5).toString)) else none
+  | .http => if body.startsWith "routes=" then some (C13.routesHolds s (parseRoutes (body.drop 7).toString)) else none
+  | .mux => none
+
+/-- tcp: the port token `@<m>` = the real port last reported to member m -/
+def resolvePort (st : GroupState) (p2 : String) : Option String :=
+  if p2.startsWith "@" then
+    match unhx (p2.drop 1).toString with
+    | some m => (st.ports.lookup m).map (fun (n : Nat) => s!"{n}")
+    | none => none
+  else some p2
+
 /-- one op (everything except `reset` and `sched`) -/
 def groupOpBase (fx : Fix) (st : GroupState) (tok : List String) (impl : String) :
     GroupState × String × Option Bool :=
   match tok with
-  | [op, m, g, key, p1, p2, p3, p4, grab] =>
+  | [op, m, g, key, p1, p2raw, p3, p4, grab] =>
+    let p2? := if st.s.kind == .tcp then resolvePort st p2raw else some p2raw
+    match p2? with
+    | none =>
+      (match tokStr m, tokStr g with
+       | some m, some g => if busyName st m g then (st, "busy", none) else (st, "noref", none)
+       | _, _ => (st, "badargs", none))
+    | some p2 =>
     match tokStr m, tokStr g, tokStr key, parseParams st.s.kind p1 p2 p3 p4 with
     | some m, some g, some key, some p =>
       -- the harness can grab only a port it knows in advance (a fixed port)
@@ -232,6 +329,9 @@ def groupOpBase (fx : Fix) (st : GroupState) (tok : List String) (impl : String)
         | some (s1, _) => doEnter fx { st with s := s1 } m g a impl st.s
       else if op = "lookup" then
         if busyName st m g then (st, "busy", none) else
+        -- the controller lock is with a leave (queued behind a hold) or with another parked join: wait for it
+        if !st.lq.isEmpty || st.s.lock.isSome then
+          ({ st with jwait := some (m, g), args := (m, a) :: st.args }, "waiting", none) else
         match step fx st.s (.lookup m g) with
         | none => (st, "impossible", none)
         | some (s1, _) => ({ st with s := s1, args := (m, a) :: st.args }, "parked", none)
@@ -243,8 +343,12 @@ def groupOpBase (fx : Fix) (st : GroupState) (tok : List String) (impl : String)
     | some m =>
       match st.s.pend.find? (·.1 == m), st.args.find? (·.1 == m) with
       | some (_, g, _), some (_, a) =>
-        doEnter fx { st with args := st.args.filter (fun x => !(x.1 == m)) } m g a impl st.s
-      | _, _ => (st, "nopend", none)
+        if st.hold.isSome then (st, "premature", none) else
+        let (st1, r, p) := doEnter fx { st with args := st.args.filter (fun x => !(x.1 == m)) } m g a impl st.s
+        -- the controller lock is free again
+        (drain fx (st1.lq.length + 2) st1, r, p)
+      | _, _ =>
+        if (st.jwait.map (·.1)) == some m then (st, "premature", none) else (st, "nopend", none)
   | ["leave", m] =>
     match tokStr m with
     | none => (st, "badargs", none)
@@ -263,6 +367,43 @@ def groupOpBase (fx : Fix) (st : GroupState) (tok : List String) (impl : String)
           | none => (st1, "impossible", none)
           | some (s', .crash) => ({ st1 with s := s' }, "crash", none)
           | some (s', _) => ({ st1 with s := s' }, "-", none)
+  | ["hold", g] =>
+    match tokStr g with
+    | none => (st, "badargs", none)
+    | some g =>
+      if st.hold.isSome then (st, "busy", none) else
+      match st.s.table.lookup g with
+      | none => (st, "nogroup", none)
+      | some gid => ({ st with hold := some gid }, "held", none)
+  | ["unhold"] =>
+    if st.hold.isNone then (st, "noop", none) else
+    let st1 := { st with hold := none }
+    (drain fx (st1.lq.length + 2) st1, "-", none)
+  | ["leaveA", m] =>
+    match tokStr m with
+    | none => (st, "badargs", none)
+    | some m =>
+      if st.athreads.contains m then (st, "dup", none) else
+      match st.joined.find? (·.1 == m) with
+      | none => (st, "nomember", none)
+      | some (_, g) =>
+        let st1 := { st with joined := st.joined.filter (fun x => !(x.1 == m)),
+                             manual := st.manual.filter (fun x => !(x == m)) }
+        let byLock := st.s.lock.isSome || !st.lq.isEmpty
+        let byHold := st.hold.isSome && leaveObj st.s m g == st.hold
+        if byLock || byHold then
+          ({ st1 with lq := st.lq ++ [(m, g)], athreads := m :: st.athreads }, "waiting", none)
+        else
+          let (s', dead) := runLeave fx st.s m g
+          ({ st1 with s := s' }, if dead then "crash" else "-", none)
+  | ["leaveW", m] =>
+    match tokStr m with
+    | none => (st, "badargs", none)
+    | some m =>
+      if !st.athreads.contains m then (st, "noasync", none) else
+      if !st.lq.any (·.1 == m) then ({ st with athreads := st.athreads.filter (fun x => !(x == m)) }, "-", none)
+      else if st.hold.isSome || !st.s.pend.isEmpty || st.jwait.isSome then (st, "premature", none)
+      else (st, "impossible", none)
   | ["resume", m] =>
     match tokStr m with
     | none => (st, "badargs", none)
@@ -300,8 +441,10 @@ def groupOpBase (fx : Fix) (st : GroupState) (tok : List String) (impl : String)
               if un ≠ [] ∧ (un ≠ u ∨ pw' ≠ pw) then (st1, "unauth", none) else keep fx st1 id gid
             | _ => (st, "impossible", none)
         | _, _, _ => (st, "badargs", none)
-  | ["conn", a, b, c] =>
+  | ["conn", a0, b, c] =>
     let got := memberOfImpl impl
+    if st.s.kind == .tcp && a0.startsWith "@" && (resolvePort st a0).isNone then (st, "noref", none) else
+    let a := if st.s.kind == .tcp then (resolvePort st a0).getD a0 else a0
     match st.s.kind with
     | .tcp =>
       match a.toNat? with
@@ -358,7 +501,8 @@ def groupOpBase (fx : Fix) (st : GroupState) (tok : List String) (impl : String)
       | some (s', _) => ({ st with s := s' }, "-", none)
   | ["view"] =>
     let ids := sortNats (st.dials.map (·.1))
-    (st, viewOf st.s ++ (if ids.isEmpty then "" else " open=" ++ ",".intercalate (ids.map (fun (n : Nat) => s!"{n}"))), none)
+    (st, viewOf st.s ++ (if ids.isEmpty then "" else " open=" ++ ",".intercalate (ids.map (fun (n : Nat) => s!"{n}"))),
+      viewProp st.s impl)
   | _ => (st, "badop", none)
 
 def andProp (a b : Option Bool) : Option Bool :=
@@ -397,8 +541,8 @@ def schedRun (fx : Fix) : GroupState → List String → List String → List St
     match impls with
     | [] => (acc.reverse, pr)          -- the child died before this op
     | impl :: rest =>
-      if impl = "crash" then
-        -- the child died executing this op
+      if impl = "crash" || impl.startsWith "wedged" then
+        -- the child died executing this op / the op can never finish (deadlock): frps is down either way
         let (_, r, p) := groupOp fx st ((op.splitOn ",").filter (· ≠ "")) impl
         ((r :: acc).reverse, andProp (andProp pr p) (some false))
       else
